@@ -25,6 +25,15 @@ HasObserve(opts) == \E i \in 1..Len(opts) : opts[i].num = 6
 \* ---- section 5.3 ------------------------------------------------------------
 Plaintext(code, opts, pl) == <<code>> \o EncOpts(InnerOpts(opts)) \o (IF pl = << >> THEN << >> ELSE <<255>> \o pl)
 
+\* section 4.1.3.5.2: in a response the inner Observe option is empty, the sequence value travels in the outer one
+EmptyObserve(opts) == [i \in 1..Len(opts) |-> IF opts[i].num = 6 THEN [num |-> 6, val |-> << >>] ELSE opts[i]]
+PlaintextResponse(code, opts, pl) == <<code>> \o EncOpts(EmptyObserve(InnerOpts(opts))) \o (IF pl = << >> THEN << >> ELSE <<255>> \o pl)
+\* the option list with an Observe option put where it belongs (the library adds it to registration responses and notifications)
+WithObserve(opts) == LET k == Cardinality({i \in 1..Len(opts) : opts[i].num <= 6})
+                     IN IF HasObserve(opts) THEN opts
+                        ELSE SubSeq(opts, 1, k) \o <<[num |-> 6, val |-> << >>]>> \o SubSeq(opts, k + 1, Len(opts))
+WithoutObserve(opts) == SelectSeq(opts, LAMBDA o : o.num # 6)
+
 \* ---- CBOR (RFC 8949), as far as needed ----------------------------------------
 Bstr(b) == IF Len(b) < 24 THEN <<64 + Len(b)>> \o b
            ELSE IF Len(b) < 256 THEN <<88, Len(b)>> \o b
@@ -44,6 +53,8 @@ OptionValueRequest(piv, kid, idctx, hasIdctx) ==
   <<Len(piv) + 8 + (IF hasIdctx THEN 16 ELSE 0)>> \o piv \o (IF hasIdctx THEN <<Len(idctx)>> \o idctx ELSE << >>) \o kid
 \* a response that uses the request's nonce carries an empty option value
 OptionValueResponse == << >>
+\* a response with its own Partial IV (notifications, section 8.3): flag byte, Partial IV, optionally the responder's kid
+OptionValueResponsePiv(piv, kid, withKid) == <<Len(piv) + (IF withKid THEN 8 ELSE 0)>> \o piv \o (IF withKid THEN kid ELSE << >>)
 \* decompose a received option value (for reading the Partial IV off the wire)
 PivOf(v) == IF v = << >> THEN << >> ELSE SubSeq(v, 2, 1 + (v[1] % 8))
 
